@@ -100,6 +100,7 @@ inductive Err where
   | typeError
   | indexError
   | valueError
+  | attributeError
   | expr                         -- ExpressionEvaluationException (YAQL or Jinja)
   deriving Repr, Inhabited, DecidableEq
 
@@ -120,6 +121,7 @@ def Err.className : Err → String
   | .typeError => "TypeError"
   | .indexError => "IndexError"
   | .valueError => "ValueError"
+  | .attributeError => "AttributeError"
   | .expr => "ExpressionEvaluationException"
 
 /-! ## The monad: state survives an exception (Python mutates in place, then raises). -/
